@@ -275,6 +275,18 @@ func c16FinalGen(c *gen.Ctx) {
 			emit([]act{{K: "declare", Names: []string{"X-T"}}, {K: "w", Ok: true}, {K: "set", Key: "X-T", Val: "0"}, {K: "panic"}}, waiter, gate)
 		}
 	}
+	// the operation is ended early — by the request side or by the client going away — before
+	// the response starts, after it started, with and without trailers set afterwards
+	for _, waiter := range []string{"none", "late"} {
+		for _, end := range []string{"readErr", "closeReq", "cancel"} {
+			emit([]act{{K: end}, {K: "declare", Names: []string{"X-T"}}, {K: "w", Ok: true}, {K: "set", Key: "X-T", Val: "1"}}, waiter, false)
+			emit([]act{{K: "set", Key: "X-Plain", Val: "p"}, {K: "wh", Status: 200}, {K: end}, {K: "w", Ok: true}}, waiter, false)
+			emit([]act{{K: "declare", Names: []string{"X-T"}}, {K: "wh", Status: 200}, {K: end}}, waiter, false)
+			emit([]act{{K: "readEof"}, {K: "w", Ok: true}, {K: end}, {K: "set", Key: "X-Plain", Val: "late"}}, waiter, false)
+			emit([]act{{K: "declare", Names: []string{"X-T"}}, {K: "w", Ok: true}, {K: end}, {K: "set", Key: "X-T", Val: "1"}}, waiter, false)
+			emit([]act{{K: "w", Ok: true}, {K: end}, {K: "set", Key: "Trailer:X-P", Val: "1"}}, waiter, false)
+		}
+	}
 	// random handler scripts
 	keys := []string{"X-T", "X-U", "Grpc-Status", "Trailer:X-T", "Trailer:X-P", "Trailer:Grpc-Message", "X-Plain", "Content-Type"}
 	names := []string{"X-T", "X-U", "Grpc-Status", "X-Never"}
@@ -284,7 +296,7 @@ func c16FinalGen(c *gen.Ctx) {
 	}
 	for i := 0; i < nRand; i++ {
 		var acts []act
-		early := r.Chance(1, 8) // the request side or the client ends the operation early
+		early := r.Chance(1, 4) // the request side or the client ends the operation early
 		for k := r.Range(2, 9); k > 0; k-- {
 			switch x := r.Intn(20); {
 			case x < 7:
@@ -307,6 +319,7 @@ func c16FinalGen(c *gen.Ctx) {
 			case x < 19:
 				if early {
 					acts = append(acts, act{K: gen.Pick(r, []string{"readErr", "closeReq", "cancel"})})
+					early = r.Chance(1, 3)
 				}
 			default:
 				if r.Chance(1, 4) {
